@@ -29,7 +29,14 @@ def directed(rng):
     for kind, arg in (("cancel", None), ("update", "PERSIST"), ("replace", 300)):
         cases.append([["book", "OPEN"], P(), ["deliver", 0, ok], ["req", kind, 0, arg, True], ["call", 0, ok], ["xfill", 0, 2], ["stream", "full"], ["respond", 0], ["stream", "full"]])
         cases.append([["book", "OPEN"], P(), ["deliver", 0, ok], ["req", kind, 0, arg, True], ["xfill", 0, 2], ["stream", "full"], ["deliver", 0, ok], ["stream", "full"]])
-    return [{"strategies": 1, "steps": st + [["drain", [ok]], ["stream", "full"], ["stream", "full"]]} for st in cases]
+    out = [{"strategies": 1, "steps": st + [["drain", [ok]], ["stream", "full"], ["stream", "full"]]} for st in cases]
+    # config.async_place_orders = True (placements are answered PENDING and learn their bet id from the stream): cancels, updates and REPLACES are
+    # still synchronous - a replacement order learns its bet id from the replace answer
+    for kind, arg in (("replace", 300), ("cancel", None), ("update", "PERSIST"), ("replace", 250)):
+        out.append({"strategies": 1, "async_config": True,
+                    "steps": [["book", "OPEN"], P(), ["deliver", 0, ok], ["stream", "full"], ["req", kind, 0, arg, True], ["deliver", 0, ok], ["stream", "full"],
+                              P(400, sel=202), ["deliver", 0, ok], ["stream", "full"], ["drain", [ok]], ["stream", "full"], ["stream", "full"]]})
+    return out
 
 
 def main():
@@ -69,6 +76,22 @@ def main():
     n = 2500 if thorough else 500
     livegen.run_live_family(ck, "random_schedules_with_restarts", [livegen.gen_script(rng, {"restart": True, "max_len": 30, "p_unknown": 0.0, "p_async": 0.25}) for _ in range(n)], chk, PID)
     livegen.run_live_family(ck, "short_schedules_few_orders", [livegen.gen_script(rng, {"restart": True, "min_len": 3, "max_len": 10, "p_unknown": 0.0, "p_async": 0.3, "strategies": 1}) for _ in range(n)], chk, PID)
+    # paper trading with several paper clients in one framework (outside the Coq model): the snapshots of the simulated order streams are the only
+    # path that completes a matched paper order - every client's orders must be reported by exactly one stream and converge
+    pcs = [{"clients": k} for k in (1, 2, 3)]
+    pres = run_impl("paperlib", {"job": "clients", "cases": pcs})["out"]
+    pbad = []
+    for i, (c, r) in enumerate(zip(pcs, pres)):
+        if r.get("error"):
+            pbad.append((i, "the run raised %s" % r["error"][:200])); continue
+        reported = sorted(x for s_ in r["streams"] for x in s_["orders"])
+        if reported != list(range(c["clients"])) or sorted(s_["client"] for s_ in r["streams"]) != list(range(c["clients"])):
+            pbad.append((i, "%d paper clients: the simulated order streams are %s (one per client, each reporting its client's orders, expected)" % (c["clients"], r["streams"])))
+        elif any(not (o["complete"] and o["in_live"] == 0 and o["trade_status"] == "Complete") for o in r["orders"]):
+            pbad.append((i, "%d paper clients: after the order streams' snapshots were processed a fully matched order is not complete / still in the live list / its trade not complete: %s" % (c["clients"], r["orders"])))
+    ck.family("paper_trading_several_clients", len(pcs), len(pcs), [], [i for i, _ in pbad])
+    for i, why in pbad[:1]:
+        ck.fail("C11-paper-clients", why, {"case": pcs[i], "out": pres[i], "how": "harness/impl/paperlib.py job clients"})
     return ck.finish("schedules of {requests, exchange calls, delayed responses with any outcome, exchange-side fills and lapses, bets of other instances / unknown strategies, snapshots (the cache image betfairlightweight hands over, partial, stale, duplicated), restarts} on the real process_current_orders / BetfairExecution / Blotter with an exchange double that keeps a consistent bet table; every step compared with the Coq live model; at the quiescent end of every schedule each local order is compared with the double's bet table (bet id, sizes, completeness, live list, trade) and every live bet of a known strategy must be held by exactly one local order")
 
 
